@@ -3,7 +3,11 @@
 NOTES = ('Technique family: static analysis only. Every check re-extracts the type-checked program from '
          '/repo\'s current working tree (content-hashed cache) and evaluates frozen, repository-specific rules; '
          'nothing is executed, tested, fuzzed or handed to a solver. Exit 2 = no verdict (tree does not compile or '
-         'a rule anchor was lost).')
+         'a rule anchor was lost). Quick tier: every rule on the default build configuration. Thorough tier: every rule '
+         'again on the tls_rustls, tls_openssl and dns_lookup build configurations (rule ids <id>@<cfg>), plus the '
+         'compile-fail witness of C18. Facts a property relies on from another property are imported rule-wise '
+         '(DESIGN.md 9.5). bin/mutants is the self-test (hand-written mutants, reverse patches of every fix: commit, and '
+         '60 independently seeded changes with must-report / must-stay-silent expectations per check).')
 
 TRUST = ('Trusted base: rustc nightly THIR/MIR for this source (same cfgs as the stable build), the library '
          'contract table in analysis/sym.py (HashMap/HashSet/Option/iterator adaptor semantics), bounded inlining of '
@@ -54,7 +58,7 @@ CHECKS = {
                   'errors do not end the serving loop and output is flushed after every event. The undischarged sites of the pinned tree '
                   '(KICK tail, repeated KICK victim, match_wildcard arithmetic/slicing, operators_count decrements, the I1-dependent '
                   'unwraps) were genuine defects; each is repaired by a fix: commit and recorded under `fixed` in known_findings.json.'),
-        'note': TRUST + ' Assumes a sane system clock; detached timer/lookup tasks are observations; resource exhaustion and panics inside dependencies are not decided. Thorough tier repeats the analysis in all four build configurations.',
+        'note': TRUST + ' Assumes a sane system clock; detached timer/lookup tasks are observations; resource exhaustion and panics inside dependencies are not decided.',
     },
     'C14': {
         'technique': 'panic-obligation discharge restricted to the matcher/normaliser, structural loop-progress witnesses, comparison-unit (char vs byte) type rule, provenance of stored/announced masks, template check of the three normalisation cases, argument-role census of match_wildcard calls',
@@ -112,7 +116,7 @@ CHECKS = {
                   'foreign-target table for INVITE/KILL/DIE), that the connection\'s nick setter stores its argument verbatim, and that no '
                   'connection acts on a nick it never registered (the three such places of the pinned tree - 433 path, teardown, dns arm '
                   'of the dns_lookup build - are repaired by fixes f454dd9, 05cb942, bb5c615).'),
-        'note': TRUST + ' Thorough tier repeats the analysis in the tls_rustls, tls_openssl and dns_lookup build configurations.',
+        'note': TRUST + '',
     },
     'C12': {
         'technique': 'two-world emission equivalence: reply sites with path conditions; reachability (satisfiability) of each site under the hidden-object world vs the absent-object world',
